@@ -56,6 +56,13 @@ theorem hcount_formula_negative_spin (T : Tables) (a : HAtom) (bv : Rat) (hs : a
   congr 3
   omega
 
+/-- the atom's type label never enters the count or the selection: the model atom carries of `atype` only the
+flag "is a CoordinationCenter" (which decides whether a NEIGHBOUR orients the placement), and neither `hcount` nor
+`selected` looks at it. (The harness runs every `AtomType` / `AtomGeom` value and every mol2 token through the code.) -/
+theorem count_ignores_atom_type (T : Tables) (a : HAtom) (b : Bool) (bv : Rat) :
+    hcount T { a with coordCentre := b } bv = hcount T a bv ∧
+    selected T { a with coordCentre := b } = selected T a := ⟨rfl, rfl⟩
+
 /-- `ceil` is the least integer not below the bonded valence -/
 theorem ceil_spec (q : Rat) : q ≤ (q.ceil : Rat) ∧ ∀ z : Int, q ≤ (z : Rat) → q.ceil ≤ z :=
   ⟨Rat.le_ceil, fun _ h => Rat.ceil_le_iff.2 h⟩
